@@ -1,5 +1,5 @@
 (* C04 — Experiments cannot wedge: quiescence implies a verdict; no hot loop. *)
-From KV Require Import Base.Prelude Base.Cond Model.World Proofs.WorldPlan Proofs.EqbRefl Proofs.WorldInv2 Proofs.WorldQuiet.
+From KV Require Import Base.Prelude Base.Cond Model.World Proofs.WorldPlan Proofs.EqbRefl Proofs.WorldInv2 Proofs.WorldInv5 Proofs.WorldQuiet Proofs.F18.
 Open Scope Z_scope.
 
 (* The trial controller is never what wedges an experiment: a created, non-completed trial whose job is absent, or
@@ -31,8 +31,9 @@ Print Assumptions C04_no_write_when_unchanged.
    set carries a Succeeded or Failed verdict.
    Two hypotheses are assumptions rather than consequences of the model: the algorithm service never returned the same
    trial name twice (with duplicate names katib does wedge: the second assignment can never be materialised), and the
-   suggestion is not marked Succeeded while the experiment has no verdict (an invariant of the cleanup / restart
-   bookkeeping that is argued in DESIGN.md section 6 (C04) but not yet proved). *)
+   suggestion is not marked Succeeded while the experiment has no verdict.  The second one is NOT an invariant: it fails
+   after a restart when an experiment reconcile still reads the completed experiment from its cache
+   (C04_no_wedge_needs_hypothesis below, known finding F18). *)
 Theorem C04_no_wedge : forall w e m,
   Inv w -> 1 <= c_par (w_cfg w) -> quiescent w -> env_done w ->
   w_exp w = Some e -> e_max e = Some m -> c_par (w_cfg w) <= m ->
@@ -40,6 +41,19 @@ Theorem C04_no_wedge : forall w e m,
   e_completed (e_st e) = true.
 Proof. exact quiescent_completed. Qed.
 Print Assumptions C04_no_wedge.
+
+(* The statement without the "suggestion not Succeeded" hypothesis is false of the model: a reachable (hence invariant-
+   satisfying), quiescent state with finished environment, distinct assignment names, maxTrialCount 2 and no verdict.
+   The history that reaches it is replayed on the real reconcilers by every run of the C04 check (corpus/WORLD), where it
+   ends in the same state: known finding F18. *)
+Theorem C04_no_wedge_needs_hypothesis :
+  exists c acts w e m,
+    valid_cfg c /\ no_teardown acts /\ w = run c acts /\ Inv w /\ 1 <= c_par (w_cfg w) /\ quiescent w /\ env_done w /\
+    w_exp w = Some e /\ e_max e = Some m /\ c_par (w_cfg w) <= m /\
+    (forall s, w_sug w = Some s -> NoDup (ss_names (s_st s))) /\
+    e_completed (e_st e) = false.
+Proof. exact f18_refutes. Qed.
+Print Assumptions C04_no_wedge_needs_hypothesis.
 
 (* No hot loop: in a quiescent state a further reconcile of any controller attempts no write and changes nothing in the store. *)
 Theorem C04_no_hot_loop : forall w c key resp,
